@@ -83,6 +83,31 @@ fn recovered_index_entry(hash: u64, sequence: Sequence, addr: EntryAddressOrTomb
         addr matches EntryAddressOrTombstone::EntryAddress(a) ==> r == Some(HashedEntryAddress { hash, address: a }), // @label winning_entry_is_indexed_under_its_own_hash_and_address
 //@end
 
+// ---- BlockRecoverRunner::run: what one scanner answer means for the recovery of that block (C03: in the default quiet
+// mode a damaged block ends ITS scan, recovery itself does not fail; strict mode reports the error)
+//@item foyer-storage/src/engine/mod.rs :: enum RecoverMode rules=derive-structural
+#[derive(Debug)] pub struct Error { }
+pub type Result<T> = core::result::Result<T, Error>;
+pub enum ScanStep { Got(Vec<EntryInfo>), Stop }
+//@region foyer-storage/src/engine/block/recover.rs :: impl~^impl BlockRecoverRunner$/fn run name=on_scan_result start=/let infos = match r \{/ stmts=1 rules=drop-tracing
+//@head
+#[verifier::exec_allows_no_decreases_clause]
+fn on_scan_result(mode: RecoverMode, r: Result<Option<Vec<EntryInfo>>>, id: BlockId) -> (out: Result<ScanStep>)
+    ensures
+        r is Ok && r.unwrap() is Some ==> out is Ok && out.unwrap() == ScanStep::Got(r.unwrap().unwrap()), // @label scanned_entries_are_taken_as_reported
+        r is Ok && r.unwrap() is None ==> out is Ok && out.unwrap() is Stop, // @label end_of_block_ends_the_scan
+        r is Err && mode == RecoverMode::Strict ==> out is Err, // @label strict_mode_reports_the_error
+        r is Err && mode != RecoverMode::Strict ==> out is Ok && out.unwrap() is Stop, // @label quiet_recovery_skips_the_rest_of_a_damaged_block_instead_of_failing
+//@prologue
+    loop
+        ensures (r is Ok && r.unwrap() is None) || (r is Err && mode != RecoverMode::Strict),
+    {
+//@tail
+        return Ok(ScanStep::Got(infos));
+    }
+    Ok(ScanStep::Stop)
+//@end
+
 // ---- BlockRecoverRunner::run: entries of one scanned blob are appended while sequences do not regress
 pub open spec fn nondecreasing(s: Seq<EntryInfo>) -> bool {
     forall|i: int, j: int| 0 <= i <= j < s.len() ==> s[i].addr.sequence <= s[j].addr.sequence
